@@ -6,7 +6,8 @@
   content: every logical line above the cursor's logical line is unchanged, the cursor stays in the
   same logical line with everything before it intact and — when it was on a character of the text —
   on that same character; logical lines after the cursor are unchanged or cut short, never altered,
-  reordered or invented.
+  reordered or invented.  A wrap-pending cursor at the end of a soft-wrapped row counts as being on the
+  first character of the next row (`pendingOnChar`, `pendingPlaceRel`).
 
   Covered events: `ev.kind = .resize` with the primary screen active and `scrollbackLimit = none`.
   Chains of resizes are covered because every resize event of a history is checked.
@@ -80,6 +81,28 @@ def onCharOK (L L' : List (List Cell)) (i o o' : Nat) : Bool :=
     | some a, some b => cellEq b[o]? a[o]?
     | _, _ => false)
 
+/-- the cursor is wrap-pending (one past the last column of its row) and its logical offset still
+    names a character of the text: its row is soft-wrapped and the character is the first cell of the
+    next row — the place where the next printed character goes -/
+def pendingOnChar (L : List (List Cell)) (i o : Nat) (pending : Bool) : Bool :=
+  pending && (match L[i]? with | some a => o < a.length | none => false)
+
+/-- … then the cursor keeps its logical offset, and the character there is the same one — unless the
+    cursor's line was cut exactly at the cursor (a height-only shrink may drop the rows below the
+    cursor row, and the character of a wrap-pending cursor lives on the next row) -/
+def pendingPlaceOK (L L' : List (List Cell)) (i o o' : Nat) : Bool :=
+  o' == o && (match L[i]?, L'[i]? with
+    | some a, some b => cellEq b[o]? a[o]? || decide (b.length ≤ o)
+    | _, _ => false)
+
+/-- the clause for the wrap-pending cursor: when it names a character of the text, a resize that
+    changes the width puts the cursor ON that character (`onCharOK`: same offset, same cell — the
+    translated cursor is a real column of a row that is never dropped); a height-only resize keeps the
+    offset and the character, unless the line was cut at the cursor (`pendingPlaceOK`) -/
+def pendingPlaceRel (L L' : List (List Cell)) (i o o' : Nat) (pending widthChanged : Bool) : Bool :=
+  !pendingOnChar L i o pending
+    || (if widthChanged then onCharOK L L' i o o' else pendingPlaceOK L L' i o o')
+
 /-- old lines `as` against new lines `bs`, position by position: each new line is the old one, or the
     old one cut short — and then it is the last new line (rows are dropped from the bottom only); new
     lines beyond the old text are blank filler -/
@@ -152,6 +175,8 @@ def checkStep (ev : StepEv) : List Verdict :=
     check "C10.before-cursor-intact" (changed && o > 0) (beforeOK L L' i o),
     check "C10.same-character" (changed && onChar L i o t.pendingWrap)
       (!onChar L i o t.pendingWrap || onCharOK L L' i o o'),
+    check "C10.pending-place" (changed && pendingOnChar L i o t.pendingWrap)
+      (pendingPlaceRel L L' i o o' t.pendingWrap widthChanged),
     check "C10.after-cursor-kept-or-cut" changed (afterOK L L' i),
     check "C10.reflow-keeps-lines-and-cursor" widthChanged (resizeRel L L' i o i' o' t.pendingWrap),
     check "C10.rows-only" (!widthChanged && b'.rows != b.rows)
